@@ -136,7 +136,7 @@ def run(pid, tier):
         api = apicheck.run_api(bdir, drv, lines, spec="PchkTrace")
         mine = apicheck.judge(pid, api, verdict)
         wapi = None
-        if pid == "C15":
+        if pid in ("C15", "C05"):
             # 2b. counts of the construction at the widths of the integer types (claim decided on the observed equations)
             wpts = width_points(tier, rng)
             wex = []
